@@ -2,5 +2,5 @@ SPECIFICATION Spec
 CONSTANTS
   NChunks = 3
   MaxOps = 4
-INVARIANTS InfoStable IndexedStable FirstStable ScanSuffix
+INVARIANTS InfoStable AccessStable IndexedStable FirstStable ScanSuffix
 CHECK_DEADLOCK FALSE
